@@ -25,6 +25,8 @@ pub enum Ending {
     /// two threads call shutdown() on clones at the same time; each reads the output as soon as
     /// its own call has returned
     ConcurrentShutdown,
+    /// the thread that owns the last handle panics: the handle is dropped by unwinding
+    DropLastByPanic,
 }
 
 #[derive(Clone, Copy, Debug, PartialEq, Eq)]
@@ -96,7 +98,8 @@ pub fn run_case(ctx: &mut CaseCtx) -> CaseResult {
         0..=1 if !wmode.is_async() => Ending::Flush,
         0..=1 => Ending::Shutdown,
         2..=3 => Ending::Shutdown,
-        4..=5 => Ending::DropLast,
+        4 => Ending::DropLastByPanic,
+        5 => Ending::DropLast,
         6 if out != Out::Writer => Ending::ConcurrentShutdown,
         _ => Ending::CloneDropContinue,
     };
@@ -384,6 +387,20 @@ pub fn run_case(ctx: &mut CaseCtx) -> CaseResult {
                 "after clone-drop, further records, then shutdown()",
                 "",
             );
+        }
+        Ending::DropLastByPanic => {
+            let h = handle.take().unwrap();
+            let j = std::thread::Builder::new()
+                .name("flmon-intentional-panic".into())
+                .spawn(move || {
+                    let _owned = h;
+                    panic!("flmon: intentional panic of the thread that owns the last handle");
+                })
+                .expect("spawn");
+            let _ = j.join();
+            // the intentional panic is not a finding
+            let _ = crate::util::take_panics();
+            read_now(&mut res, &next, "immediately after the last handle was dropped by a panicking thread", "");
         }
         Ending::ConcurrentShutdown => {
             let mut exp_main = next.clone();
@@ -723,7 +740,9 @@ pub fn child_main(a: &ChildArgs) -> i32 {
             // exit without any further orderly shutdown of the logger: forget the handle
             std::mem::forget(handle.take());
         }
-        Ending::Shutdown | Ending::ConcurrentShutdown => handle.as_ref().unwrap().shutdown(),
+        Ending::Shutdown | Ending::ConcurrentShutdown | Ending::DropLastByPanic => {
+            handle.as_ref().unwrap().shutdown()
+        }
         Ending::DropLast => drop(handle.take()),
         Ending::CloneDropContinue => {
             let c = handle.as_ref().unwrap().clone();
